@@ -15,3 +15,18 @@ chk("C14", "model_checking",
     "Explicit-state BFS to a fixpoint over sequential operation histories on each provided cache (every transition executed on the real cache under the controlled scheduler, so a self-deadlock is detected exactly; Random's map order is an explorer choice), compared step by step with a list model of the documented policy; plus every interleaving of 2-3 goroutines x 1-2 operations on colliding bases, each complete call/return history checked for linearizability against the same model with porcupine.",
     "Trusts the reference model in cmd/vconc/cachemodel.go (written from the package documentation and the bgzf.Cache interface comments), the scheduler's model of sync.RWMutex (validated by the litmus suite and by running the repository's tests against the instrumented build in pass-through mode), and data-race freedom between synchronisation operations (checked separately with -race). Bounds: bases {0,1,2}, capacities 1..3, <=3 goroutines, <=3 concurrent operations.",
     "explicit-state BFS to fixpoint over real operations + exhaustive interleaving exploration (controlled scheduler) with porcupine linearizability checking", "DESIGN.md §3 C14", "vsched+vinst (E1) / xmc (E2)")
+
+chk("C02", "model_checking",
+    "rd=1: explicit-state BFS to a fixpoint over Seek/Read/ReadByte/Blocked histories on the real Reader (state key = dump of the Reader's mutable fields; merged transitions re-validated by a read-to-end probe), every transition compared with the flat-stream model. rd>1: every history up to length 3 (4 in thorough) over a reduced menu, every schedule of consumer, read-ahead worker and decompressor goroutines up to 2 (3) preemptions on the instrumented code, each observation compared with the same model; deadlock, leak and panic detected exactly.",
+    "Trusts rdr.Model (the flat semantics written from the property statement), refimpl's BGZF encoder for the input files, the scheduler's model of channels/select/WaitGroup/RWMutex, and DRF between synchronisation operations. Bounds: files of 3-4 tiny blocks (one real 65280-byte block in thorough), history length, preemption bound.",
+    "explicit-state BFS to fixpoint (rd=1) + preemption-bounded exhaustive schedule exploration with HB state caching (rd>1) against a flat reference model", "DESIGN.md §3 C02", "xmc (E2) + vsched+vinst (E1)")
+
+chk("C03", "model_checking",
+    "rd=1: one BFS to a fixpoint per cache kind x capacity with SetCache(kind)/SetCache(nil) as operations, the cache queue in the state key, every transition compared with an uncached Reader driven in lockstep (bytes, error class, LastChunk value) and with a livelock horizon on cache/underlying calls. rd>1: histories up to length 2-3 with the cache attached up front or after the first operation, all schedules up to 2 preemptions (Random's eviction order is an explorer choice), flat-model oracle, exact deadlock/leak/panic detection.",
+    "As C02. Known open findings (FIFO.Get contract violation and its consequences; read-ahead worker not re-positioned by a cache-served Seek / skipping a block that is then evicted) are matched by signature and exploration continues past them, so other violations in the same scenarios are still reported; states in which the cache aliases the Reader's current block are searched to depth 3 for an observable consequence rather than expanded.",
+    "explicit-state BFS to fixpoint, differential against an uncached reader (rd=1) + preemption-bounded exhaustive schedule exploration (rd>1)", "DESIGN.md §3 C03", "xmc (E2) + vsched+vinst (E1)")
+
+chk("C12", "model_checking",
+    "All schedules (preemption bound 2 quick / 3 thorough, unbounded for the smallest scripts) of compressor goroutines, the emitter and a device double whose Write has scheduling points, for a family of Write/Flush/Wait/Close scripts, wc 1..3, including full 65280-byte blocks, incompressible content and one-shot device failures, plus a bam.Writer. In every execution every device snapshot (at each underlying Write return) is parsed by an independent RFC1952/BGZF parser: it must end on a member boundary and decode to a prefix of the bytes offered; Flush+Wait==nil and Close==nil durability are checked at the call returns. Scenarios with full blocks are additionally explored without state caching because the happens-before key cannot distinguish orders of unsynchronised accesses.",
+    "Trusts refimpl.ParseStream, the scheduler's primitives, and (for the cached explorations) data-race freedom. Bounds: scripts of <= 12 calls, <= 3 full blocks, preemption bound.",
+    "preemption-bounded exhaustive schedule exploration with device snapshots at every write return (crash points)", "DESIGN.md §3 C12", "vsched+vinst (E1)")
